@@ -35,7 +35,13 @@ def main():
             sh(['git', 'checkout', '--', '.'], cwd=R)
             continue
         try:
-            out = sh([V + '/check', prop], cwd=V, timeout=1800)
+            try:
+                out = sh([V + '/check', prop], cwd=V, timeout=1800)
+            except subprocess.TimeoutExpired:
+                # a check that does not come back is broken, not a detection
+                rows.append({'id': name, 'applies': True, 'exit': 'check timed out', 'violation': [], 'with_failing_input': False,
+                             'summary': [], 'broken': ['the check itself did not terminate']})
+                continue
             txt = out.stdout + out.stderr
             viol = [l for l in txt.splitlines() if l.startswith('VIOLATION')]
             summary = [l for l in txt.splitlines() if re.match(r'C\d+ quick', l)]
